@@ -147,6 +147,28 @@ func New() *Cache {
 ''', '''func (i *Interpreter) ProcessErrorStatement(stmt *ast.ErrorStatement) error {
 	i.ctx.Restarts++
 '''),
+ # operand matrix (every type x every expression form): an operator that works on its operand in place
+ 'ip-equal-normalises-operand': ('interpreter/operator/operator.go', '''		if rv.IsNotSet {
+			// unset IP never equals to another IP
+			return &value.Boolean{Value: false}, nil
+		}
+		return &value.Boolean{Value: lv.Value.Equal(rv.Value)}, nil''', '''		if rv.IsNotSet {
+			// unset IP never equals to another IP
+			return &value.Boolean{Value: false}, nil
+		}
+		lv.Value = lv.Value.To16()
+		lv.Value[15] &= 0xfe
+		return &value.Boolean{Value: lv.Value.Equal(rv.Value)}, nil'''),
+ 'concat-marks-right-operand': ('interpreter/operator/operator.go', '''	return &value.String{
+		Value: left.String() + right.String(),
+	}, nil
+}''', '''	if b, ok := right.(*value.Boolean); ok {
+		b.Value = false
+	}
+	return &value.String{
+		Value: left.String() + right.String(),
+	}, nil
+}'''),
  # harmless refactorings
  'harmless-reorder': ('interpreter/subroutine.go', '''	regex := i.ctx.RegexMatchedValues
 	local := i.localVars
